@@ -198,6 +198,17 @@ def check(prog, res, tier):
 
         seen_rows = {'n': 0}
 
+        def rescued(p, rec):
+            """the path also compares a value read from the same record with a constant (`x or x == 0`): which falsy values
+            are kept is then a finer question than this rule answers"""
+            for kind, _t, data in p.facts:
+                if kind in ('sym-eq', 'sym-eq-nofork', 'eq'):
+                    for x in (data.get('sym'), data.get('a'), data.get('b')):
+                        fo = getattr(x, 'origin', None)
+                        if isinstance(fo, tuple) and len(fo) >= 3 and fo[0] in ('item', 'method') and it_resolve(p, fo[1]) is rec:
+                            return True
+            return False
+
         def chk_rows2(p, mode):
             fails = []
             for first, last, s0, s1, head in iterations(p, func=dfi.short):
@@ -238,6 +249,10 @@ def check(prog, res, tier):
                                 fo = getattr(data.get('sym'), 'origin', None) if kind == 'truth' else None
                                 if isinstance(fo, tuple) and len(fo) >= 3 and fo[0] in ('item', 'method') and \
                                         it_resolve(p, fo[1]) is rec and (fo[0] == 'item' or fo[2] == 'get'):
+                                    if rescued(p, rec):
+                                        fails.append(soft('cells are filtered by truthiness together with a comparison with a constant '
+                                                          '(x or x == 0 ...): which falsy values are kept is not decided', e.node))
+                                        break
                                     fails.append(definite('a cell is written or left out depending on the truthiness of the record value: a '
                                                           'value of 0 (DE4, DE71 ...) or an empty string does not come back', e.node, firm=True))
                                     break
@@ -253,6 +268,10 @@ def check(prog, res, tier):
                     o = getattr(data.get('sym'), 'origin', None)
                     if isinstance(o, tuple) and len(o) >= 3 and o[0] in ('item', 'method') and it_resolve(p, o[1]) is it_resolve(p, elem) \
                             and (o[0] == 'item' or o[2] == 'get'):
+                        if rescued(p, it_resolve(p, elem)):
+                            fails.append(soft('cells are filtered by truthiness together with a comparison with a constant: which falsy '
+                                              'values are kept is not decided', head.node))
+                            break
                         fails.append(definite('a cell is written or left out depending on the truthiness of the record value: a value of 0 '
                                               '(DE4, DE71 ...) or an empty string does not come back', head.node, firm=True))
                         break
